@@ -5290,6 +5290,15 @@ skip_future_versions:
         /* Activate a profile read from the state of the TPM 2 */
         rc = RuntimeProfileSet(&g_RuntimeProfile, profileJSON, false);
     }
+    if (rc == TPM_RC_SUCCESS) {
+        /* objects were unmarshalled with all algorithms allowed; under the
+           now active profile every persistent object must still be readable */
+        rc = NvCheckEvictObjects();
+        if (rc != TPM_RC_SUCCESS)
+            TPMLIB_LogTPM2Error("USER_NVRAM: a persistent object cannot be "
+                                "read under the profile of the state: 0x%x\n",
+                                rc);
+    }
 
     free(profileJSON);
 
